@@ -12,39 +12,54 @@ Check (stepwise_is_try_for_each : forall St src chain (f : sink St) st fuel,
 Check (try_for_some_pulls_one : forall St src chain (f : sink St) st,
   let '(rest, _, o) := try_for_some St src chain f st in
   match src with [] => rest = [] /\ o = Done | _ :: tl => rest = tl end).
-(* source fault at any position, any chain, any initial consumer state *)
-Check (source_fault_prefix : forall chain fault pre e post st,
-  not_reached fault (length (st ++ fm chain pre)) ->
-  try_for_each _ (map inl pre ++ inr e :: post) chain (rec_sink fault) st
-  = (post, st ++ fm chain pre, SourceError e)).
-(* sink fault at any position *)
-Check (sink_fault_prefix : forall chain pre x y post j e st,
-  through chain x = Some y -> length (st ++ fm chain pre) = j ->
-  try_for_each _ (map inl pre ++ inl x :: post) chain (rec_sink (Some (j, e))) st
-  = (post, st ++ fm chain pre ++ [y], SinkError e)).
+(* source fault in any step (after that step's own items), any chain, any consumer state *)
+Check (source_fault_prefix : forall chain fault steps last e post st,
+  not_reached fault (length (st ++ fm chain (items_of steps ++ last))) ->
+  try_for_each _ (clean steps ++ (last, Some e) :: post) chain (rec_sink fault) st
+  = (post, st ++ fm chain (items_of steps ++ last), SourceError e)).
+(* sink fault at any position inside any step *)
+Check (sink_fault_prefix : forall chain steps pre x y rest_of_batch oe post j e st,
+  through chain x = Some y ->
+  length (st ++ fm chain (items_of steps ++ pre)) = j ->
+  try_for_each _ (clean steps ++ (pre ++ x :: rest_of_batch, oe) :: post) chain (rec_sink (Some (j, e))) st
+  = (post, st ++ fm chain (items_of steps ++ pre) ++ [y], SinkError e)).
 (* no fault *)
-Check (no_fault_all : forall chain fault items st,
-  not_reached fault (length (st ++ fm chain items)) ->
-  try_for_each _ (map inl items) chain (rec_sink fault) st = ([], st ++ fm chain items, Done)).
+Check (no_fault_all : forall chain fault steps st,
+  not_reached fault (length (st ++ fm chain (items_of steps))) ->
+  try_for_each _ (clean steps) chain (rec_sink fault) st = ([], st ++ fm chain (items_of steps), Done)).
+(* the iterator-backed source (one item per step) *)
+Check (iterator_source_fault : forall chain fault pre e post st,
+  not_reached fault (length (st ++ fm chain pre)) ->
+  try_for_each _ (of_results (map inl pre ++ inr e :: post)) chain (rec_sink fault) st
+  = (of_results post, st ++ fm chain pre, SourceError e)).
 (* what the chain computes *)
 Check (fm_nil : forall l, fm [] l = l).
 Check (fm_filter : forall p c l, fm (AFilter p :: c) l = fm c (filter p l)).
 Check (fm_map : forall m c l, fm (AMap m :: c) l = fm c (map m l)).
+(* MapSource / FilterMapSource turned back into iterators lose, duplicate and reorder nothing *)
+Check (drain_all : forall chain fuel src buf,
+  (length (buf ++ all_out chain src) < fuel)%nat ->
+  drain fuel chain (src, buf) = buf ++ all_out chain src).
 (* insert_all returns the number of effective changes *)
-Check (insert_all_count : forall chain items s c, NoDup s ->
-  let '(rest, (s', c'), o) := try_for_each _ (map inl items) chain (insert_sink None 0) (s, c) in
+Check (insert_all_count : forall chain steps s c, NoDup s ->
+  let '(rest, (s', c'), o) := try_for_each _ (clean steps) chain (insert_sink None 0) (s, c) in
   o = Done /\ rest = [] /\ NoDup s'
   /\ (c' - c = length s' - length s)%nat /\ (c <= c')%nat
-  /\ (forall x, In x s' <-> In x s \/ In x (fm chain items))).
+  /\ (forall x, In x s' <-> In x s \/ In x (fm chain (items_of steps)))).
 
-(* non-vacuity: a depth-3 chain, a source fault in the middle, a sink fault on the second item *)
+(* non-vacuity: a depth-3 chain, a source fault in the middle, a sink fault on the second item,
+   a parser-like step delivering two items and then failing, drained through an iterator *)
 Example ex_source_fault :
-  run_rec [inl 1; inl 2; inl 4; inr 7; inl 6] [DFilterEven; DMapSucc; DFilterMapLtSucc 5] None
+  run_rec (of_results [inl 1; inl 2; inl 4; inr 7; inl 6]) [DFilterEven; DMapSucc; DFilterMapLtSucc 5] None
   = ([4], KSource 7, 4).
 Proof. vm_compute. reflexivity. Qed.
 Example ex_sink_fault :
-  run_rec [inl 2; inl 3; inl 4; inl 6; inr 9] [DFilterEven; DMapSucc] (Some (1%nat, 5))
+  run_rec (of_results [inl 2; inl 3; inl 4; inl 6; inr 9]) [DFilterEven; DMapSucc] (Some (1%nat, 5))
   = ([3; 5], KSink 5, 3).
+Proof. vm_compute. reflexivity. Qed.
+Example ex_batch_iter :
+  drain 10 (map adapter_of [DMapSucc]) ([([1], None); ([2; 3], Some 9); ([4], None)], [])
+  = [inl 2; inl 3; inl 4; inr 9; inl 5].
 Proof. vm_compute. reflexivity. Qed.
 
 Print Assumptions try_for_each_spec.
@@ -54,7 +69,9 @@ Print Assumptions try_for_some_pulls_one.
 Print Assumptions source_fault_prefix.
 Print Assumptions sink_fault_prefix.
 Print Assumptions no_fault_all.
+Print Assumptions iterator_source_fault.
 Print Assumptions fm_nil.
 Print Assumptions fm_filter.
 Print Assumptions fm_map.
+Print Assumptions drain_all.
 Print Assumptions insert_all_count.
